@@ -1,0 +1,96 @@
+//go:build verif
+
+// Contracts for package document, read by /verif/engine (govc). This file holds
+// comments only: with or without the build tag it adds no code to the package.
+package document
+
+//@ spec rowsOwn(t *Table) bool = forall r1 int, r2 int :: 0 <= r1 && r1 < r2 && r2 < len(t.Rows) ==> arr(t.Rows[r1].Cells) != arr(t.Rows[r2].Cells)
+
+//@ func (*Table).GetCell
+//@ props C09
+//@ requires t != nil
+//@ modifies nothing
+//@ ensures (0 <= row && row < len(t.Rows) && 0 <= col && col < len(t.Rows[row].Cells)) ==> (err == nil && result0 == &t.Rows[row].Cells[col])
+//@ ensures !(0 <= row && row < len(t.Rows) && 0 <= col && col < len(t.Rows[row].Cells)) ==> (err != nil && result0 == nil)
+
+//@ func (*Table).DeleteRow
+//@ props C09
+//@ requires t != nil
+//@ ensures err == nil <==> (0 <= rowIndex && rowIndex < old(len(t.Rows)) && old(len(t.Rows)) > 1)
+//@ ensures err != nil ==> unchangedHeap()
+//@ ensures err == nil ==> len(t.Rows) == old(len(t.Rows)) - 1
+//@ ensures err == nil ==> forall r int :: 0 <= r && r < len(t.Rows) ==> t.Rows[r] == old(t.Rows[ite(r < rowIndex, r, r+1)])
+
+//@ func (*Table).InsertRow
+//@ props C09
+//@ requires t != nil
+//@ ensures err != nil ==> unchangedHeap()
+//@ ensures err == nil ==> len(t.Rows) == old(len(t.Rows)) + 1
+//@ ensures err == nil ==> forall r int :: 0 <= r && r < old(len(t.Rows)) ==> t.Rows[ite(r < position, r, r+1)] == old(t.Rows[r])
+//@ ensures err == nil ==> len(t.Rows[position].Cells) == old(len(t.Rows[0].Cells))
+//@ loop 1
+//@   invariant 0 <= i && i <= colCount
+//@   invariant len(newRow.Cells) == colCount
+//@   invariant unchangedHeap()
+//@   decreases colCount - i
+
+//@ func (*Table).AppendRow
+//@ props C09
+//@ requires t != nil
+//@ ensures err != nil ==> unchangedHeap()
+//@ ensures err == nil ==> len(t.Rows) == old(len(t.Rows)) + 1
+//@ ensures err == nil ==> forall r int :: 0 <= r && r < old(len(t.Rows)) ==> t.Rows[r] == old(t.Rows[r])
+
+//@ func (*Table).DeleteRows
+//@ props C09
+//@ requires t != nil
+//@ ensures err == nil <==> (0 <= startIndex && startIndex <= endIndex && endIndex < old(len(t.Rows)) && old(len(t.Rows)) - (endIndex - startIndex + 1) >= 1)
+//@ ensures err != nil ==> unchangedHeap()
+//@ ensures err == nil ==> len(t.Rows) == old(len(t.Rows)) - (endIndex - startIndex + 1)
+//@ ensures err == nil ==> forall r int :: 0 <= r && r < len(t.Rows) ==> t.Rows[r] == old(t.Rows[ite(r < startIndex, r, r + (endIndex - startIndex + 1))])
+
+//@ func (*Table).GetRowCount
+//@ props C09
+//@ requires t != nil
+//@ modifies nothing
+//@ ensures result == len(t.Rows)
+
+//@ func (*Table).GetColumnCount
+//@ props C09
+//@ requires t != nil
+//@ modifies nothing
+//@ ensures result == ite(len(t.Rows) == 0, 0, len(t.Rows[0].Cells))
+
+//@ func (*Table).SetCellText
+//@ props C09
+//@ requires t != nil && rowsOwn(t)
+//@ ensures err == nil <==> (0 <= row && row < len(t.Rows) && 0 <= col && col < len(t.Rows[row].Cells))
+//@ ensures err != nil ==> unchangedHeap()
+//@ ensures err == nil ==> len(t.Rows[row].Cells[col].Paragraphs) >= 1 && len(t.Rows[row].Cells[col].Paragraphs[0].Runs) >= 1 && t.Rows[row].Cells[col].Paragraphs[0].Runs[0].Text.Content == text
+//@ ensures unchangedExcept("TableCell.Paragraphs", "Paragraph.Runs", "Run.Text.Content", "Paragraph.*", "Run.*")
+//@ ensures forall c int :: 0 <= row && row < len(t.Rows) && 0 <= c && c < len(t.Rows[row].Cells) && c != col ==> t.Rows[row].Cells[c].Paragraphs == old(t.Rows[row].Cells[c].Paragraphs)
+//@ ensures forall r int, c int :: 0 <= r && r < len(t.Rows) && 0 <= c && c < len(t.Rows[r].Cells) && r != row ==> t.Rows[r].Cells[c].Paragraphs == old(t.Rows[r].Cells[c].Paragraphs)
+
+//@ func (*Table).InsertColumn
+//@ props C09
+//@ requires t != nil && rowsOwn(t)
+//@ ensures err != nil ==> unchangedHeap()
+//@ ensures err == nil ==> t.Grid != nil && len(t.Grid.Cols) == old(ite(t.Grid == nil, 0, len(t.Grid.Cols))) + 1
+//@ ensures err == nil ==> len(t.Rows) == old(len(t.Rows)) && rowsOwn(t)
+//@ ensures err == nil ==> 0 <= position && len(data) <= len(t.Rows)
+//@ ensures err == nil ==> forall r int :: 0 <= r && r < len(t.Rows) ==> len(t.Rows[r].Cells) == old(len(t.Rows[r].Cells)) + 1 && position < len(t.Rows[r].Cells)
+//@ ensures err == nil ==> forall r int :: 0 <= r && r < len(t.Rows) ==> len(t.Rows[r].Cells[position].Paragraphs) == 1 && len(t.Rows[r].Cells[position].Paragraphs[0].Runs) == 1 && t.Rows[r].Cells[position].Paragraphs[0].Runs[0].Text.Content == ite(r < len(data), data[r], "")
+//@ loop 1
+//@   invariant 0 <= #i && #i <= len(t.Rows) && unchangedHeap()
+//@   invariant forall r int :: 0 <= r && r < #i ==> position <= len(t.Rows[r].Cells)
+//@   decreases len(t.Rows) - #i
+//@ loop 2
+//@   invariant 0 <= #i && #i <= len(t.Rows) && len(t.Rows) == old(len(t.Rows)) && t.Rows == old(t.Rows)
+//@   invariant t.Grid != nil && len(t.Grid.Cols) == old(ite(t.Grid == nil, 0, len(t.Grid.Cols))) + 1
+//@   invariant rowsOwn(t)
+//@   invariant forall r int :: 0 <= r && r < len(t.Rows) ==> position <= old(len(t.Rows[r].Cells))
+//@   invariant forall r int :: 0 <= r && r < #i ==> len(t.Rows[r].Cells) == old(len(t.Rows[r].Cells)) + 1
+//@   invariant forall r int :: #i <= r && r < len(t.Rows) ==> t.Rows[r].Cells == old(t.Rows[r].Cells)
+//@   invariant forall r int, c int :: #i <= r && r < len(t.Rows) && 0 <= c && c < old(len(t.Rows[r].Cells)) ==> t.Rows[r].Cells[c] == old(t.Rows[r].Cells[c])
+//@   invariant forall r int :: 0 <= r && r < #i ==> len(t.Rows[r].Cells[position].Paragraphs) == 1 && len(t.Rows[r].Cells[position].Paragraphs[0].Runs) == 1 && t.Rows[r].Cells[position].Paragraphs[0].Runs[0].Text.Content == ite(r < len(data), data[r], "")
+//@   decreases len(t.Rows) - #i
